@@ -1341,8 +1341,8 @@ func init() {
 		Run: ruleCtxOwnership,
 	})
 	register(&Rule{
-		Name: "retry-predicate", Props: []string{"C11", "C12"}, Engine: "FDE", Floor: 4,
-		Doc: "retryable(err) is false for nil and true exactly for the three errors that are produced before anything is written (connection closed at pick time, no stream available, stream ids exhausted); RoundTrip returns at once on success or on a non-retryable error, never reports retry=true for those, and bounds its attempts",
+		Name: "retry-predicate", Props: []string{"C11", "C12", "C07"}, Engine: "FDE", Floor: 6,
+		Doc: "retryable(err) is false for nil and true exactly for the three errors that are produced before anything is written (connection closed at pick time, no stream available, stream ids exhausted); RoundTrip returns at once on success or on a non-retryable error, never reports retry=true for those, gives up once an attempt has consumed a streamed body, and bounds its attempts",
 		Run: ruleRetryPredicate,
 	})
 }
@@ -1528,15 +1528,35 @@ func ruleRetryPredicate(p *Prog, r *Out) {
 			r.bad("RoundTrip retry loop", c.pos, "RoundTrip has no retry loop")
 			return
 		}
-		var stopIf, lastIf *ast.IfStmt
+		var stopIf, lastIf, spentIf *ast.IfStmt
 		for _, s := range loop.Body.List {
 			if ifs, ok := s.(*ast.IfStmt); ok {
 				if strings.Contains(p.text(ifs.Cond), "retryable") {
 					stopIf = ifs
 				} else if mentionsIdent(ifs.Cond, "attempt") {
 					lastIf = ifs
+				} else if strings.Contains(p.text(ifs.Cond), "IsBodyStream") {
+					spentIf = ifs
 				}
 			}
+		}
+		// a streamed body an attempt has started on cannot be replayed: the
+		// connection closes the reader when it gives the request up
+		wasStreamed := ""
+		for _, s := range fd.Body.List {
+			if as, ok := s.(*ast.AssignStmt); ok && len(as.Lhs) == 1 && len(as.Rhs) == 1 && s.Pos() < loop.Pos() {
+				if cl, ok := as.Rhs[0].(*ast.CallExpr); ok && strings.HasSuffix(p.calleeOf(cl), ".IsBodyStream") && p.text(cl.Fun) == "req.IsBodyStream" {
+					wasStreamed = p.text(as.Lhs[0])
+				}
+			}
+		}
+		if spentIf != nil && wasStreamed != "" {
+			c.expr("a consumed body stream ends the attempts", spentIf.Cond, fdeDomain{[]string{wasStreamed, "req.IsBodyStream()"}, [][]int64{{0, 1}, {0, 1}}}, nil, func(e fdeEnv) int64 { return b2i(e[wasStreamed] != 0 && e["req.IsBodyStream()"] == 0) }, "streamed && !req.IsBodyStream()", "a request whose body stream an attempt has closed goes out again with no body at all and is reported as sent")
+			res := firstReturn(spentIf.Body)
+			before := lastIf == nil || spentIf.Pos() < lastIf.Pos()
+			r.check(len(res) == 2 && p.text(res[0]) == "false" && p.text(res[1]) == "err" && before, "a consumed body stream is not handed to fasthttp's retry either", p.pos(spentIf.Pos()), "return false, err before the last-attempt test", "RoundTrip reports retry=true, or tries again itself, for a request whose body stream is gone")
+		} else {
+			r.bad("a consumed body stream ends the attempts", c.pos, "RoundTrip no longer compares the request's body stream before and after an attempt: a streamed body that a connection started on and closed (GOAWAY disclaiming the stream) is sent again empty, and Do reports success")
 		}
 		if stopIf != nil {
 			c.expr("RoundTrip stops on success or a non-retryable error", stopIf.Cond, fdeDomain{[]string{"err==nil", "retryable(err)"}, [][]int64{{0, 1}, {0, 1}}}, nil, func(e fdeEnv) int64 { return b2i(e["err==nil"] != 0 || e["retryable(err)"] == 0) }, "err == nil || !retryable(err)", "anything else re-sends a request the server may have processed, or loops on a success")
